@@ -35,7 +35,7 @@ import (
 type c07Fake struct {
 	emit, keys byte
 	segSize    uint64
-	graph      int // 0: stages [m1|s1] [idx|m2|out]; 1: a second store s2 (reads s1) in a stage of its own, out reads s2
+	graph      int // 0: stages [m1|s1] [idx|m2|out]; 1: a second store s2 (reads s1) in a stage of its own, out reads s2; 2: as 0 with s1 filtered on idx too
 	vals, wals []byte
 }
 
@@ -210,12 +210,18 @@ func c07Modules(graph int) *pbsubstreams.Modules {
 			Binaries: []*pbsubstreams.Binary{{Type: "wasm/rust-v1", Content: []byte{1}}},
 		}
 	}
+	s1 := store("s1", mapIn("m1"))
+	if graph == 2 {
+		// a store filtered on the index: with no matching block in the segment every executor of its
+		// stage may be excluded, and the job ends without streaming a block
+		s1.BlockFilter = &pbsubstreams.Module_BlockFilter{Module: "idx", Query: &pbsubstreams.Module_BlockFilter_QueryString{QueryString: "a"}}
+	}
 	return &pbsubstreams.Modules{
 		Modules: []*pbsubstreams.Module{
 			{Name: "idx", BinaryEntrypoint: "idx", Inputs: []*pbsubstreams.Module_Input{src}, Kind: &pbsubstreams.Module_KindBlockIndex_{KindBlockIndex: &pbsubstreams.Module_KindBlockIndex{OutputType: "proto:sf.substreams.index.v1.Keys"}}, Output: &pbsubstreams.Module_Output{Type: "proto:sf.substreams.index.v1.Keys"}},
 			mapper("m1", src),
 			m2,
-			{Name: "s1", BinaryEntrypoint: "s1", Inputs: []*pbsubstreams.Module_Input{mapIn("m1")}, Kind: &pbsubstreams.Module_KindStore_{KindStore: &pbsubstreams.Module_KindStore{UpdatePolicy: pbsubstreams.Module_KindStore_UPDATE_POLICY_SET, ValueType: "bytes"}}},
+			s1,
 			mapper("out", storeIn, mapIn("m1"), mapIn("m2")),
 		},
 		Binaries: []*pbsubstreams.Binary{{Type: "wasm/rust-v1", Content: []byte{1}}},
